@@ -35,6 +35,8 @@ FAMILY = ["C=CO", "C(=C)O", "C(O)=C", "OC=C", "C(=CC)O", "CC=CO", "OC(=C)C", "C=
           "OC(O)O", "C(O)(O)(O)O", "OC(O)(O)C", "COC(C)(C)O", "OC(C)(C)OC", "CC(C)(O)O[Li]", "CC(C)(O)O[Na]", "C=C(C)O[Na]", "C=C(O)C(O)(O)C",
           "NC(O)(O)C", "CCO.C=CO", "CC(O)(O)C.C=CO", "O", "CCO", "CC(=O)C", "c1ccccc1O", "OC(O)=O", "OC(O)c1ccccc1", "OC(O)C=C", "C=C(O)C(=O)O",
           "C[C@H](O)C=CO", "OC(=CC)CC", "FC(O)(O)F", "ClC(Cl)(Cl)C(O)O", "OC(O)C(O)O", "[NH3+]CC(O)O", "C=C(O)C[N+](C)(C)C",
+          # enols whose OTHER olefinic carbon also carries an oxygen substituent (enol ethers / esters of enols)
+          "COC=C(C)O", "CC(O)=COC", "CC(=O)OC=C(C)O", "OC1=COCCC1", "CC(O)=C1OCCO1", "CC(O)=C(C)O[Si](C)(C)C",
           # hemiacetals (the default functional-group tree reports them as 'hemiacetal', a child of 'hemiketal': they are left alone)
           "CC(O)OC", "OC1CCCCO1", "OC1OC(CO)C(O)C(O)C1O", "CCOC(C)O", "OC1CCCO1",
           # gem-diols whose first hydroxyl is written in brackets (the hydrogen is then an explicit count on the atom)
